@@ -3,7 +3,6 @@ package sym
 import (
 	"fmt"
 	"os"
-	"go/token"
 	"go/types"
 	"math"
 	"math/bits"
@@ -452,7 +451,7 @@ func registerStd(in *Interp) {
 		if s, ok := a[0].(string); ok {
 			return strconv.Quote(s)
 		}
-		return in.strBinop(token.ADD, in.strBinop(token.ADD, "\"", a[0]), "\"")
+		return in.callBody(fr, fn, a)
 	}
 	I["strconv.ParseFloat"] = func(in *Interp, fr *frame, fn *ssa.Function, a []value) value {
 		f, err := strconv.ParseFloat(strArg(a[0]), int(in.intArg(a[1], "bits")))
